@@ -334,7 +334,13 @@ Lemma recover_ok nv s h d im upto :
     take (44 * c') (i_cml im) = entries (firstn (N.to_nat c') h) /\
     take (dts h d) (i_txl im) = raws (firstn (N.to_nat d) h) /\ dts h d <= len (i_txl im) /\
     ((N.to_nat (precommitted s') <= upto)%nat -> asize s' = precommitted s') /\
-    VInv H s' (firstn (N.to_nat c') h ++ rs) (c' + N.of_nat (length rs)).
+    VInv H s' (firstn (N.to_nat c') h ++ rs) (c' + N.of_nat (length rs)) /\
+    (* how the hash tree of s' was obtained *)
+    (let asz := len (i_ahc im) / 12 in
+     let a0 := mkAht (f_open (i_ahd im)) (open_trim (i_ahc im) 12) asz asz 0 in
+     exists a1, (if c' <? asz then aht_reset a0 c' else Ok a0) = Ok a1 /\
+       relink H (Nat.min upto (N.to_nat (c' + N.of_nat (length rs) - a_size a1))) (c_thld (s_cfg s))
+              (i_txl im) (i_cml im) c' (map pb_of rs) a1 = Ok (aht_of s')).
 Proof.
   intros I VI (Ctx & Ccm & Cvl & Cad & Cac).
   destruct (cm_image _ _ _ _ _ I Ccm) as (c' & Hc1 & Hc2 & Hc3 & Hc4 & Hc5).
@@ -468,7 +474,9 @@ Proof.
   2:{ split; [reflexivity|]. split; [reflexivity|]. split; [reflexivity|]. split; [reflexivity|].
       split; [exact Q1|]. split; [exact Q2|]. split; [exact Q3|]. split; [exact Hc5|].
       split; [exact Tp|]. split; [lia|]. split.
-      2:{ apply VIgoal; reflexivity. }
+      2:{ split; [apply VIgoal; reflexivity|]. cbv zeta. fold ac asz a0. exists a1. split; [exact Ea1|].
+          fold tx cm p'. fold n. rewrite <- Rpb. rewrite Ea2. unfold aht_of. cbn [ahd ahc asize alatest acnt].
+          destruct a2; reflexivity. }
       intros Hup. unfold precommitted. cbn [committed pbuf asize]. rewrite Rpb, map_length. fold p'.
       unfold precommitted in Hup. cbn [committed pbuf] in Hup. rewrite Rpb, map_length in Hup. fold p' in Hup.
       rewrite Sa2. unfold n. lia. }
